@@ -391,6 +391,7 @@ pub fn generate(property: &str, tier: &str, seed: u64, index: u64) -> Plan {
         "C11" => c11(property, seed, index),
         "C12" => c12(property, seed, index),
         "C18" => c18(property, seed, index),
+        "C16" => c16(property, seed, index),
         "C17" => {
             let mut p = s1(property, if index % 2 == 0 { "s1-3to4peers" } else { "s1" }, seed, &S1Opts { min_peers: if index % 2 == 0 { 3 } else { 2 }, desync: index % 3 == 0, allow_lockstep: true, frames_lo: 80, frames_hi: 500, long_run_pct: 3, ..Default::default() });
             // several local players per peer are the interesting case
@@ -1324,4 +1325,105 @@ pub fn c18(property: &str, seed: u64, index: u64) -> Plan {
         }
         _ => s1(property, "s1-long", seed, &S1Opts { frames_lo: 3000, frames_hi: 10_000, long_run_pct: 0, ..Default::default() }),
     }
+}
+
+
+// ------------------------------------------------------------------ C16
+
+fn random_bcall(c: &Ch, j: u64, np_hint: usize) -> BCall {
+    let addr = 1 + c.range(&[200, j], 0, 2) as u16;
+    match c.range(&[201, j], 0, 15) {
+        0 => BCall::NumPlayers(c.range(&[202, j], 0, 4) as usize),
+        1..=3 => BCall::AddLocal(c.range(&[203, j], 0, 6) as usize),
+        4..=6 => BCall::AddRemote(addr, c.range(&[204, j], 0, 6) as usize),
+        7 | 8 => BCall::AddSpectator(addr, c.range(&[205, j], 0, 6) as usize),
+        9 => BCall::Window(c.range(&[206, j], 0, 16) as usize),
+        10 => BCall::Delay(c.range(&[207, j], 0, 16) as usize),
+        11 => BCall::Fps(*c.pick(&[208, j], &[0usize, 1, 60, 60])),
+        12 => BCall::Desync(*c.pick(&[209, j], &[0u32, 1, 2, 6])),
+        13 => BCall::Sparse(c.chance(&[210, j], 500_000)),
+        14 => BCall::CheckDistance(c.range(&[211, j], 0, 17) as usize),
+        _ => {
+            let _ = np_hint;
+            if c.chance(&[212, j], 500_000) {
+                BCall::MaxFramesBehind(*c.pick(&[213, j], &[0usize, 1, 10, 59, 60]))
+            } else {
+                BCall::CatchupSpeed(*c.pick(&[214, j], &[0usize, 1, 2, 70]))
+            }
+        }
+    }
+}
+
+pub fn c16(property: &str, seed: u64, index: u64) -> Plan {
+    let c = Ch::new(seed, "c16");
+    if index % 4 == 3 {
+        // misuse half: C01's space with misuse calls at seeded ticks; twin without them
+        let mut p = s1(property, "c16-misuse", seed, &S1Opts { max_peers: 3, allow_lockstep: true, frames_lo: 80, frames_hi: 400, long_run_pct: 0, ..Default::default() });
+        if matches!(p.cfg.input_mode, InputMode::PerAttempt) {
+            p.cfg.input_mode = InputMode::Unique;
+        }
+        let peers = p.peers();
+        let np = p.cfg.num_players;
+        for j in 0..c.range(&[1], 2, 12) {
+            let node = peers[c.range(&[2, j], 0, peers.len() as u64 - 1) as usize];
+            let locals = match &p.nodes[node].kind {
+                NodeKind::Peer { locals } => locals.clone(),
+                _ => unreachable!(),
+            };
+            let not_local: Vec<usize> = (0..np + 3).filter(|h| !locals.contains(h)).collect();
+            let remote_or_unknown = not_local[c.range(&[3, j], 0, not_local.len() as u64 - 1) as usize];
+            let local_or_unknown = if c.chance(&[4, j], 600_000) { locals[c.range(&[5, j], 0, locals.len() as u64 - 1) as usize] } else { np + 5 + c.range(&[6, j], 0, 3) as usize };
+            let call = match c.range(&[7, j], 0, 5) {
+                0 => Api::AddInputWrongHandle { handle: remote_or_unknown },
+                1 | 2 => Api::AdvanceMissingInput,
+                3 => Api::DisconnectMisuse { handle: local_or_unknown },
+                4 => Api::SetDelayMisuse { handle: remote_or_unknown, delay: c.range(&[8, j], 0, 6) as usize },
+                _ => Api::NetStats { handle: local_or_unknown },
+            };
+            let at = if c.chance(&[9, j], 150_000) { c.range(&[10, j], 0, ms(300)) } else { c.range(&[11, j], 0, p.horizon_us) };
+            p.api.push(ApiCall { node, at_us: at, call });
+        }
+        return p;
+    }
+    // builder half
+    let mut calls: Vec<BCall> = Vec::new();
+    if c.chance(&[20], 600_000) {
+        // mostly valid: a coherent configuration with a few perturbations
+        let np = c.range(&[21], 1, 4) as usize;
+        if np != 2 || c.chance(&[22], 500_000) {
+            calls.push(BCall::NumPlayers(np));
+        }
+        let n_remote_addrs = c.range(&[23], 0, 2);
+        for h in 0..np {
+            let who = c.range(&[24, h as u64], 0, n_remote_addrs);
+            calls.push(if who == 0 { BCall::AddLocal(h) } else { BCall::AddRemote(who as u16, h) });
+        }
+        for k in 0..c.range(&[25], 0, 2) {
+            calls.push(BCall::AddSpectator(3, np + k as usize));
+        }
+        for j in 0..c.range(&[26], 0, 4) {
+            let extra = random_bcall(&c, 100 + j, np);
+            let pos = c.range(&[27, j], 0, calls.len() as u64) as usize;
+            calls.insert(pos, extra);
+        }
+        if c.chance(&[28], 200_000) && !calls.is_empty() {
+            let k = c.range(&[29], 0, calls.len() as u64 - 1) as usize;
+            calls.remove(k);
+        }
+    } else {
+        for j in 0..c.range(&[30], 1, 12) {
+            calls.push(random_bcall(&c, j, 2));
+        }
+    }
+    let start = match c.range(&[31], 0, 9) {
+        0..=5 => BStart::P2P,
+        6 | 7 => BStart::SyncTest,
+        _ => BStart::Spectator,
+    };
+    let mut p = synctest(property, seed, false, false);
+    p.scenario = "c16-builder-sequence".into();
+    p.cfg.input_mode = InputMode::Held(3);
+    p.cfg.predict_default = false;
+    p.mode = Mode::Builder { calls, start };
+    p
 }
